@@ -564,6 +564,26 @@ def size(node: ir.Node, op, state: OptimizerState) -> ReturnValue:
     return op.Constant(value_int=size)
 
 
+def _value_names(graph: ir.Graph, skip: ir.Node | None = None) -> set[str]:
+    """Names of all values defined in a graph and in the subgraphs nested in it.
+
+    The subgraphs of the node `skip` are left out.
+    """
+    names = {v.name for v in graph.inputs if v.name}
+    names.update(graph.initializers)
+    for node in graph:
+        names.update(v.name for v in node.outputs if v.name)
+        if node is skip:
+            continue
+        for attr in node.attributes.values():
+            if attr.type == ir.AttributeType.GRAPH:
+                names.update(_value_names(attr.as_graph()))
+            elif attr.type == ir.AttributeType.GRAPHS:
+                for subgraph in attr.as_graphs():
+                    names.update(_value_names(subgraph))
+    return names
+
+
 def _move_initializers_to_graph(src: ir.Graph, dst: ir.Graph) -> None:
     """Move all initializers from src graph to dst graph, ensuring name uniqueness."""
     counter: dict[str, int] = {}
@@ -602,10 +622,21 @@ def if_op(node: ir.Node, op, state: OptimizerState) -> ReturnValue:
             for formal, actual in zip(formal_outs, actual_outs)
             if actual is not None
         }
-        # TODO: Extend renaming to intermediate values.
+        # Intermediate values keep their names unless these are already used in the graph the
+        # nodes are moved to (sibling subgraphs may use the same names).
+        main_graph = node.graph
+        used_names = _value_names(main_graph, skip=node) if main_graph is not None else set()
+        used_names.update(renamings.values())
 
         def rename(name):
-            return renamings.get(name, name)
+            if name in renamings:
+                return renamings[name]
+            if name is None or name not in used_names:
+                return name
+            suffix = 1
+            while f"{name}_{suffix}" in used_names:
+                suffix += 1
+            return f"{name}_{suffix}"
 
         graph_nodes = list(graph)
         graph.remove(graph_nodes)
@@ -613,11 +644,12 @@ def if_op(node: ir.Node, op, state: OptimizerState) -> ReturnValue:
             # TODO: handle renaming inside subgraphs in nodes
             for v in sub_node.outputs:
                 v.name = rename(v.name)
+                if v.name is not None:
+                    used_names.add(v.name)
             # Avoid name collision.
             sub_node.name = f"{node.name}_{sub_node.name}"
 
         # Move initializers from the subgraph to the main graph to avoid losing them.
-        main_graph = node.graph
         if main_graph is not None:
             _move_initializers_to_graph(graph, main_graph)
 
